@@ -143,6 +143,14 @@ func registerConstModel(e *Engine) {
 		}
 		return &IfaceV{T: constUnknownT, V: IntT64(0)}
 	}
+	H["go/constant.ToComplex"] = func(st *State, a []Value) Value {
+		k, _ := constKindOf(st, a[0])
+		switch k {
+		case ckInt, ckFloat:
+			st.unsupported("constant.ToComplex of a numeric constant (complex constants are not modelled)")
+		}
+		return &IfaceV{T: constUnknownT, V: IntT64(0)}
+	}
 	H["go/constant.Int64Val"] = func(st *State, a []Value) Value {
 		k, iv := constKindOf(st, a[0])
 		if k != ckInt {
